@@ -318,6 +318,17 @@ pub fn run(rec: &mut Rec, rng: &mut Rng, thorough: bool) {
     for t in [&b"text/plain"[..], b"application/json"] {
         single_edits(t, &mut |s| op_media(rec, s));
     }
+    // … whatever the AMOUNT of surrounding whitespace (the input has no length limit of its own)
+    rec.case("media-long-whitespace");
+    for t in ["text/plain", "application/json", "text/plai"] {
+        for n in [10usize, 100, 120, 128, 239, 240, 245, 246, 250, 255, 256, 1000, 70000] {
+            for (l, r) in [(n, 0usize), (0, n), (n / 2, n - n / 2)] {
+                let s = format!("{}{}{}", " ".repeat(l), t, "\t".repeat(r));
+                rec.nontrivial_op();
+                op_media(rec, s.as_bytes());
+            }
+        }
+    }
     // media types modulo surrounding whitespace
     rec.case("media-whitespace");
     let pads = ["", " ", "\t", "\r\n", "\u{a0}", "\u{3000}", "\u{2028}", " \t ", "\u{85}", "\u{1680}", "\u{200b}", "\u{feff}"];
